@@ -5,8 +5,8 @@ package chansim
 import (
 	"bytes"
 
-	"github.com/btcsuite/btcd/btcec/v2"
 	"fmt"
+	"github.com/btcsuite/btcd/btcec/v2"
 	"sort"
 
 	"github.com/lightningnetwork/lnd/channeldb"
